@@ -517,6 +517,48 @@ def r20_11(run, model):
                        "`p.origin()` is rejected (function types have different parameter lengths)")
     if n == 0:
         raise AnalysisIncomplete("completions_for_type: no iteration over impl methods found")
+    # (c) the predicate the filter applies says no for a function without parameters
+    preds = set()
+    for c in S.walk(f.body):
+        if c["k"] == "MethodCall" and c["method"] in ("filter", "filter_map"):
+            for x in S.walk(c):
+                if x["k"] in ("Call", "MethodCall") and S.callee_name(x) and model.find_fns(S.callee_name(x), QUERY):
+                    g = model.find_fns(S.callee_name(x), QUERY)[0]
+                    if (g.node.get("ret") or "").strip() == "bool" and any(y["k"] == "MethodCall" and y["method"] == "first" for y in S.walk(g.body)):
+                        preds.add(g.name)
+    if not preds:
+        raise AnalysisIncomplete("completions_for_type: the predicate that examines a method's first parameter was not found")
+    for pn in sorted(preds):
+        g = model.fn(pn, QUERY)
+        gp = S.Parents(g.body)
+        for y in S.walk(g.body):
+            if y["k"] != "MethodCall" or y["method"] != "first":
+                continue
+            p_ = gp.parent(y)
+            verdict = None
+            if p_ is not None and p_["k"] == "MethodCall" and p_["recv"] is y:
+                if p_["method"] == "is_some_and":
+                    verdict = True
+                elif p_["method"] in ("is_none_or", "is_none"):
+                    verdict = False
+                elif p_["method"] in ("map_or", "map_or_else") and p_["args"]:
+                    verdict = S.norm_ws(run.facts.text(QUERY, p_["args"][0]["sp"])) in ("false", "||false")
+                elif p_["method"] in ("unwrap_or",) and p_["args"]:
+                    verdict = S.norm_ws(run.facts.text(QUERY, p_["args"][0]["sp"])) == "false"
+            elif p_ is not None and p_["k"] == "Match" and p_["scrut"] is y:
+                none = [a for a in p_["arms"] if S.norm_ws(run.facts.text(QUERY, a["pat"]["sp"])) in ("None", "_")]
+                verdict = bool(none) and all(S.norm_ws(run.facts.text(QUERY, a["body"]["sp"])) == "false" for a in none)
+            elif p_ is not None and p_["k"] in ("Let", "Local"):
+                els = p_.get("else")
+                verdict = els is not None and re.search(r"returnfalse|^\{false\}$", S.norm_ws(run.facts.text(QUERY, els["sp"])).replace(" ", "")) is not None
+                if p_["k"] == "Let":
+                    iff = next((a for a in gp.ancestors(p_) if a["k"] == "If"), None)
+                    verdict = iff is not None and iff.get("else") is not None and S.norm_ws(run.facts.text(QUERY, iff["else"]["sp"])).replace(" ", "") == "{false}"
+            if verdict is None:
+                raise AnalysisIncomplete(f"{pn}: how the missing first parameter is answered could not be read")
+            run.ob("R20.11", f"{pn}|a function without parameters does not take the receiver", verdict, site(QUERY, y["sp"]),
+                   f"`{S.norm_ws(run.facts.text(QUERY, (p_ or y)['sp']))[:70]}`",
+                   witness="impl Point { fn origin() -> Point {..} }: origin() has no first parameter and is offered after `p.`; `p.origin()` is rejected")
     # (b) no function on the dot-completion path maps TRef { elem } to a recursive call on elem
     d = model.fn("dot_completions", QUERY)
     onpath = {d.name, f.name} | {S.callee_name(c) for g in (d, f) for c in S.calls(g.body)}
@@ -593,6 +635,11 @@ def r20_14(run, model):
                    "no type information; dot completion after `p.` (p from util.gom) is empty")
 
 
+def r20_15(run, model):
+    from rules import c04 as _c04
+    _c04.r04_7(run, model, only_files=("crates/compiler/src/query.rs", "crates/wasm-app/src/lib.rs"))
+
+
 def run(run, model):
     mir = Mir(run.facts)
     g = Graph(mir)
@@ -605,6 +652,8 @@ def run(run, model):
     run.try_rule(r20_12, model)
     run.try_rule(r20_13, model)
     run.try_rule(r20_14, model)
+    # the byte scanning of the textual fallbacks must not index past the end of any text, the empty one included (shared with C04 R04.7)
+    run.try_rule(r20_15, model)
     from rules import c07
     run.rule("R20.7", "the occurs check looks into every component of every type former (shared with C07 R07.2, restricted to typer::unify): a "
                       "missed component lets a cyclic type through and the next query overflows the stack")
